@@ -47,13 +47,16 @@ Lemma tie_handle_validation_response ctx q rep : peq (src_handle_validation_resp
 Proof.
   unfold src_handle_validation_response, handle_validation_response. cbv zeta.
   change (beq (q_method q) (bs "GET")) with (is_get (q_method q)).
+  cbn [p_hdr response_of]. unfold strip_qualified.
   destruct rep as [|r].
   - destruct (rc_no_stale ctx), (is_get (q_method q)); cbn [negb andb]; try apply peq_refl;
-      constructor; intros now; destruct (can_stale_on_error _ _ _); apply peq_refl.
+      constructor; intros now; destruct (can_stale_on_error _ _ _); try apply peq_refl;
+      destruct (resp_no_cache (parse_cc (e_hdr (rc_stored ctx)))) as [raw|]; [destruct (no_cache_fields raw)|]; apply peq_refl.
   - destruct (is_get (q_method q)), (p_status r =? 304); cbn [negb andb].
     + destruct (req_no_store (rc_cc_req ctx)), (resp_no_store (parse_cc (p_hdr r))); cbn [negb andb orb]; apply peq_refl.
     + destruct (rc_no_stale ctx), (is_stale_error_allowed (p_status r)); cbn [negb andb]; try apply peq_refl;
-        constructor; intros now; destruct (can_stale_on_error _ _ _); apply peq_refl.
+        constructor; intros now; destruct (can_stale_on_error _ _ _); try apply peq_refl;
+        destruct (resp_no_cache (parse_cc (e_hdr (rc_stored ctx)))) as [raw|]; [destruct (no_cache_fields raw)|]; apply peq_refl.
     + destruct (rc_no_stale ctx), (is_stale_error_allowed (p_status r)); cbn [negb andb]; apply peq_refl.
     + destruct (rc_no_stale ctx), (is_stale_error_allowed (p_status r)); cbn [negb andb]; apply peq_refl.
 Qed.
